@@ -94,7 +94,14 @@ def jit_vs_interpreter(chk, r, rep, n_points, n_runs, max_pto, n_cells=60):
         scheme, nfff = r.choice([("ZM-VFNS", 4), ("FFNS", 3), ("FFN0", 3)])
         tmc = r.choice([0, 0, 1]) if pto == 0 else 0
         name = f"{kind}_{r.choice(['total', 'light', 'charm'])}"
-        runs.append(dict(theory=cards.theory(PTO=pto, FNS=scheme, NfFF=nfff, TMC=tmc), observables=cards.obs({name: [dict(x=float(r.choice([0.05, 0.3])), Q2=float(r.choice([10.0, 200.0])))]}, prDIS=process, ProjectileDIS="neutrino" if process == "CC" else "electron", interpolation_xgrid=cards.default_grid(8, 1e-2))))
+        g_ = cards.default_grid(8, 1e-2)
+        q2_ = float(r.choice([10.0, 200.0]))
+        # a generic point and points a relative 1e-6 next to grid nodes (the convolution integrands have
+        # their kinks there: the quadrature works hardest, and must work the same in both modes)
+        pts_ = [dict(x=float(r.choice([0.05, 0.3])), Q2=q2_)]
+        if tmc == 0:
+            pts_ += [dict(x=float(g_[3] * (1 - 1e-6)), Q2=q2_), dict(x=float(g_[5] * (1 + 1e-6)), Q2=q2_), dict(x=float(g_[6] * (1 - 1e-6)), Q2=q2_)]
+        runs.append(dict(theory=cards.theory(PTO=pto, FNS=scheme, NfFF=nfff, TMC=tmc), observables=cards.obs({name: pts_}, prDIS=process, ProjectileDIS="neutrino" if process == "CC" else "electron", interpolation_xgrid=g_)))
     # every kind of kernel the Combiner can hand out, evaluated at z = 0.5, 0.25, 0.8 in both modes
     # (z = 0.5 makes 1/(1-z) = 2, 1-z = z, ...: branch points of the special functions)
     cells = []
@@ -157,9 +164,11 @@ def jit_vs_interpreter(chk, r, rep, n_points, n_runs, max_pto, n_cells=60):
                 worst = max(worst, float(np.abs(va - vb).max()))
                 scale = max(scale, float(np.abs(va).max()))
         d.update(maxdiff=worst, scale=scale)
+        chk.extra.setdefault("run_relative_differences", []).append(dict(obs=name, FNS=d["FNS"], PTO=d["PTO"], TMC=d["TMC"], rel=worst / max(scale, 1e-300)))
         # adaptive quadrature takes different subdivisions when the integrand differs in the last bits:
         # at NNLO the two modes agree to the quadrature accuracy (~1e-6 of the operator), not to 1e-7
-        tol = (1e-7 if rq["theory"]["PTO"] <= 1 else 2e-6) * max(scale, 1e-300)
+        # up to NLO the two modes agree to ~2e-9 of the operator on the pinned tree (also next to nodes)
+        tol = (3e-8 if rq["theory"]["PTO"] <= 1 else 2e-6) * max(scale, 1e-300)
         chk.search_case("run_jit_vs_interpreter", worst <= tol, what="operator differs between compiled and interpreted mode", data=d, sample=d, nontrivial=scale > 0)
 
 
